@@ -942,7 +942,10 @@ def extract_fields(obj: model.CanContainImportsDocumentable) -> None:
                 attrobj.parsed_type = field.body()
             else:
                 attrobj.parsed_docstring = field.body()
-                attrobj.kind = field_name_to_kind[tag]
+                if isinstance(attrobj, model.Attribute):
+                    # The field might name something else than a variable,
+                    # i.e. a submodule or a nested class: these keep their kind.
+                    attrobj.kind = field_name_to_kind[tag]
 
 def format_kind(kind: model.DocumentableKind, plural: bool = False) -> str:
     """
